@@ -639,8 +639,9 @@ func (c *handlerCtx) handleReply() {
 		verifGate("handlereply.beforeDone", c.sess)
 		c.callCmd.result = c.input.Body()
 		c.stat = c.callCmd.stat
-		c.callCmd.done()
+		// before done(): CostTime() may be read as soon as the call is complete
 		c.callCmd.cost = time.Duration(c.sess.timeNow() - c.callCmd.start)
+		c.callCmd.done()
 		if enablePrintRunLog() {
 			c.sess.printRunLog(c.RealIP(), c.callCmd.cost, c.input, c.callCmd.output, typeCallLaunch)
 		}
